@@ -31,6 +31,20 @@ def mk_pool(L, b, tab):
     return pool, decls
 
 
+def mentions(tp, bound, p, depth=0):
+    """Does the bound mention the type parameter p anywhere (directly, as a type argument at any depth, under a projection,
+    or through the bound of a type variable it mentions)?  Written here, not taken from the implementation."""
+    if bound is None or depth > 12:
+        return False
+    if isinstance(bound, tp.TypeParameter):
+        return bound == p or mentions(tp, bound.bound, p, depth + 1)
+    if isinstance(bound, tp.WildCardType):
+        return mentions(tp, bound.bound, p, depth + 1)
+    if isinstance(bound, tp.ParameterizedType):
+        return any(mentions(tp, a, p, depth + 1) for a in bound.type_args)
+    return False
+
+
 def upper(tp, a):
     if isinstance(a, tp.WildCardType):
         return a.bound
@@ -69,6 +83,21 @@ def run(tier, seed, replay=None):
                 p2 = ("V", chain_cid * 10 + 1, 0, p1)
                 p3 = ("V", chain_cid * 10 + 2, 0, p2)
                 tab[chain_cid] = ([p1, p2, p3], [])
+            deep_cid = None
+            if rng.random() < 0.45:
+                # a later bound mentions an earlier parameter only at nesting depth >= 2:  K<T1, T2 : BoxA<BoxB<T1>>> and variants
+                ba, bb = max(tab) + 1, max(tab) + 2
+                deep_cid = max(tab) + 3
+                tab[ba] = ([("V", ba * 10, 0, None)], [])
+                tab[bb] = ([("V", bb * 10, 0, None)], [])
+                p1 = ("V", deep_cid * 10, 0, None)
+                inner = ("A", bb, [p1])
+                shape = rng.randrange(3)
+                if shape == 1:
+                    inner = ("A", bb, [("W", 1, p1)])            # BoxA<BoxB<out T1>>
+                mid = ("A", ba, [inner] if shape != 2 else [("W", 1, inner)])     # shape 2: BoxA<out BoxB<T1>>
+                p2 = ("V", deep_cid * 10 + 1, 0, mid)
+                tab[deep_cid] = ([p1, p2], [])
             b = T.Builder(L, tab)
             pool, decls = mk_pool(L, b, tab)
             gens = [c for c in tab if tab[c][0]]
@@ -77,6 +106,8 @@ def run(tier, seed, replay=None):
                 if not gens:
                     break
                 c = chain_cid if (chain_cid is not None and rng.random() < 0.3) else rng.choice(gens)
+                if deep_cid is not None and rng.random() < 0.35:
+                    c = deep_cid
                 con = decls[c].get_type()
                 params = con.type_parameters
                 cfg.dis.use_site_variance = rng.random() < 0.25
@@ -117,8 +148,10 @@ def run(tier, seed, replay=None):
                     vc = {}
                 elif r < 0.7:
                     vc = {p: (rng.random() < 0.5, rng.random() < 0.5) for p in params if rng.random() < 0.7}
+                if c == deep_cid and c is not None:
+                    vc = {} if rng.random() < 0.6 else {params[0]: (True, True)}
                 vc_in = None if vc is None else dict(vc)
-                dv = rng.random() < 0.15
+                dv = rng.random() < 0.15 and c != deep_cid
                 key = "%s/pre=%s/vc=%s/dv=%s" % (mode, pre is not None, "none" if vc is None else ("empty" if not vc else "map"), dv)
                 opts_hist[key] = opts_hist.get(key, 0) + 1
                 try:
@@ -162,7 +195,7 @@ def run(tier, seed, replay=None):
                             why = "use-site variance is disabled"
                         elif a.variance.is_contravariant() and cfg.dis.use_site_contravariance:
                             why = "use-site contravariance is disabled"
-                        elif any(q.has_bound_of(p) for q in later):
+                        elif any(mentions(tp, q.bound, p) for q in later):
                             why = "the parameter is mentioned in another parameter's bound"
                         elif (a.variance.is_covariant() and p.is_contravariant()) or (a.variance.is_contravariant() and p.is_covariant()):
                             why = "the projection conflicts with the declared variance"
@@ -195,6 +228,50 @@ def run(tier, seed, replay=None):
             groups.append((lang, tab, L.any_bid, bounds))
     finally:
         cfg.dis.use_site_variance, cfg.dis.use_site_contravariance = saved
+
+    # generator stream: every call of the assignment computation that the REAL generator issues while it generates programs
+    # (stressed configuration: bounded type parameters, parameterized functions) is validated structurally -- the callers
+    # choose the pools, so a caller handing over an unboxed pool or a bare constructor shows here and nowhere else
+    import progs
+    gen_calls, gen_progs, gen_crashes = [0], 0, []
+    orig = tu._compute_type_variable_assignments
+
+    def watched(type_parameters, types, type_var_map=None, variance_choices=None, for_type_constructor=True):
+        pre_ = dict(type_var_map or {})
+        t_args, tvm = orig(type_parameters, types, type_var_map, variance_choices, for_type_constructor)
+        gen_calls[0] += 1
+        where = "%s: call issued by the generator (program seed %d) for parameters %s" % (cur[0], cur[1], list(type_parameters))
+        if len(t_args) != len(type_parameters) or any(p not in tvm for p in type_parameters):
+            problems.append((where, "not exactly one type argument per type parameter: %s" % (t_args,), {}, cur[0]))
+        for k_, (p, a) in enumerate(zip(type_parameters, t_args)):
+            if p in pre_:
+                continue                     # requested by the caller: kept, not chosen here
+            u = upper(tp, a)
+            if u is not None and not u.is_type_var() and hasattr(u, "is_primitive") and u.is_primitive():
+                problems.append((where, "argument %d is the primitive type %s" % (k_, u), {}, cur[0]))
+            if isinstance(a, tp.TypeConstructor) or isinstance(u, tp.TypeConstructor):
+                problems.append((where, "argument %d is the uninstantiated generic class %s" % (k_, a), {}, cur[0]))
+            if isinstance(a, tp.WildCardType) and a.bound is not None and not for_type_constructor:
+                problems.append((where, "argument %d of a generic function is the projection %s" % (k_, a), {}, cur[0]))
+        return t_args, tvm
+    cur = [None, 0]
+    tu._compute_type_variable_assignments = watched
+    try:
+        rows_ = progs.config_table()
+        for lang in T.LANGS:
+            nprog = (8 if lang in ("java", "groovy") else 3) if tier == "quick" else 150
+            for s_ in range(nprog):
+                sd = C.sub_seed(seed, "c08gen", lang, s_) % (2 ** 31)
+                cur[0], cur[1] = lang, sd
+                progs.set_cfg(rows_[0])
+                try:
+                    (progs.generate_directed if s_ % 4 else progs.generate)(lang, sd)
+                    gen_progs += 1
+                except Exception as e:      # noqa: BLE001  (generator failures are C18's subject)
+                    gen_crashes.append((lang, sd, type(e).__name__))
+        progs.set_cfg(rows_[0])
+    finally:
+        tu._compute_type_variable_assignments = orig
 
     hdr = (C.CASE_HEADER + "From Coq Require Import List Arith Bool.\nImport ListNotations.\n"
            "From Heph Require Import Types.Syntax Types.Subst Types.Subtype Types.Decl Types.Corr Types.Judge Types.Judge09 "
@@ -263,6 +340,10 @@ def run(tier, seed, replay=None):
     if not proof_ok and not rep.violations:
         rep.violation("proof", rep.proof_broken, dict(broken=rep.proof_broken), no_input=True)
     nb = sum(len(g[3]) for g in groups)
+    rep.add(generator_stream_programs=gen_progs, generator_stream_calls=gen_calls[0], generator_stream_generation_failures=len(gen_crashes),
+            generator_stream_rule="the real generator (plain and directed/stressed configuration) with _compute_type_variable_assignments "
+                                  "wrapped: per call one argument per parameter, no primitive / bare constructor among the arguments the "
+                                  "helper chose itself, no projection for a generic function")
     rep.add(programs=ncalls, calls=ncalls, evaluations=ncalls, bound_obligations=nb, kernel_certificates=ncert,
             distinct_nontrivial=ncert, disagreements_checked=len(problems) + sum(len(d) for d in bad.values()),
             verdict_histogram=hist, exceptions=len(crashes), exception_samples=[list(c) for c in crashes[:5]],
